@@ -1016,9 +1016,21 @@ func (d *duration) Apply(key string, value interface{}, ctx *rdf.ParsingContext)
 						),
 						jen.Id("re").Op(":=").Qual("regexp", "MustCompile").Call(
 							// raw string, recommended by https://github.com/dave/jennifer/issues/50
-							jen.Op("`P(\\d*Y)?(\\d*M)?(\\d*D)?(T(\\d*H)?(\\d*M)?(\\d*S)?)?`"),
+							jen.Op("`^P(\\d+Y)?(\\d+M)?(\\d+D)?(T(\\d+H)?(\\d+M)?(\\d+S)?)?$`"),
 						),
 						jen.Id("res").Op(":=").Id("re").Dot("FindStringSubmatch").Call(jen.Id("s")),
+						jen.Commentf("The whole string must be a duration, with at least one component and, after a 'T', at least one time component."),
+						jen.If(
+							jen.Id("res").Op("==").Nil().Op("||").Len(jen.Id("s")).Op("==").Lit(1).Op("||").Qual("strings", "HasSuffix").Call(jen.Id("s"), jen.Lit("T")),
+						).Block(
+							jen.Return(
+								jen.Lit(0),
+								jen.Qual("fmt", "Errorf").Call(
+									jen.Lit("%s malformed: not an xsd:duration"),
+									jen.Id("s"),
+								),
+							),
+						),
 						jen.Var().Id("dur").Qual("time", "Duration"),
 						// Years
 						jen.Id("nYear").Op(":=").Id("res").Index(jen.Lit(1)),
